@@ -3,7 +3,7 @@ import IceProofs.Sys2C20Link
 # C20 on `Sys2` — the two-agent theorems
 
 `Fresh s0` (two freshly created agents, nothing in flight) → any schedule `pre` → a state `s1` in which the session is
-`Established` (roles taken, the ordinary nomination over, no renomination yet) → any schedule `ex` that is an
+`Established` (roles taken, no renomination yet) → any schedule `ex` that is an
 `Exchange` (no Restart / Close, every state a `Session`).  `hist s1 ex` is the history of the exchange.
 -/
 namespace IceProofs.C20S
@@ -84,26 +84,20 @@ theorem fresh_inv {s0 : Sys} (hf : Fresh s0) (es : List SysEv) :
 
 /-! ## the start and the course of an exchange -/
 
-/-- the datagram carries neither a nomination value nor an ordinary nomination (USE-CANDIDATE request) -/
-def nomFree (d : Dgram) : Bool :=
-  match d.p with
-  | .stun m => m.nom.isNone && !(m.cls == 0 && m.useCand)
-  | .data _ => true
-
 /-- the datagram carries no nomination value -/
 def valFree (d : Dgram) : Bool :=
   match d.p with
   | .stun m => m.nom.isNone
   | .data _ => true
 
-/-- **The session is established and renomination has not begun.**  Roles taken (`Session`); A has a selected pair
-(the ordinary nomination is over on the controlling side, so A sends no further ordinary nomination); no nomination —
-ordinary or valued — is in flight; A has no nomination transaction outstanding; B has accepted no nomination value and
-none of its pairs carries a deferred nomination mark. -/
+/-- **The session is established and renomination has not begun.**  Roles taken (`Session`); no nomination value is
+in flight; A has no valued nomination transaction outstanding and has processed no response to one; B has accepted no
+nomination value and none of its pairs carries a deferred nomination value.  Ordinary nominations (USE-CANDIDATE
+without a value) may be in flight, outstanding or deferred, and A need not have selected a pair yet. -/
 def Established (s : Sys) : Prop :=
-  Session s ∧ s.a.selected.isSome = true ∧ (∀ d ∈ s.inflight, nomFree d = true) ∧
-  (∀ pd ∈ s.a.pending, pd.nom = none) ∧ s.b.lastNomination = none ∧
-  (∀ p ∈ s.b.checklist, p.nomOnSuccess = false ∧ p.deferredNom = none)
+  Session s ∧ (∀ d ∈ s.inflight, valFree d = true) ∧
+  (∀ pd ∈ s.a.pending, pd.nom = none) ∧ s.a.answeredNomination = none ∧ s.b.lastNomination = none ∧
+  (∀ p ∈ s.b.checklist, p.deferredNom = none)
 
 instance (s : Sys) : Decidable (Established s) := by unfold Established; infer_instance
 
@@ -133,27 +127,23 @@ theorem ExchangeK.head {K : Ev → Bool} {s1 : Sys} {e : SysEv} {es : List SysEv
 /-- the invariant holds when the session is established -/
 theorem established_qinv {s1 : Sys} (hi : AgentC06.Inv s1.a ∧ AgentC06.Inv s1.b) (he : Established s1) :
     QInv s1.nat {} s1 := by
-  obtain ⟨hs, hsel, hfl, hpend, hlast, hmarks⟩ := he
-  refine ⟨rfl, hi.1, hi.2, hs, ?_, ?_, hsel, ?_, ?_, ?_, ?_⟩
-  · intro d hd m hm
+  obtain ⟨hs, hfl, hpend, hansw, hlast, hmarks⟩ := he
+  refine ⟨rfl, hi.1, hi.2, hs, ?_, ?_, ?_, ?_, ?_, ?_, ?_⟩
+  · intro d hd m hm v hv
     have := hfl d hd
-    unfold nomFree at this
+    unfold valFree at this
     rw [hm] at this
-    simp only [Bool.and_eq_true, Option.isNone_iff_eq_none, Bool.not_eq_true', Bool.and_eq_false_iff,
-      beq_eq_false_iff_ne, ne_eq] at this
-    obtain ⟨h1, h2⟩ := this
-    refine ⟨fun v hv => (by rw [h1] at hv; cases hv), fun hc hu => ?_⟩
-    rcases h2 with h2 | h2
-    · exact absurd hc h2
-    · rw [hu] at h2; cases h2
+    simp only [Option.isNone_iff_eq_none] at this
+    rw [this] at hv; cases hv
   · intro pd hpd v hv
     rw [hpend pd hpd] at hv; cases hv
   · intro x hx; cases hx
+  · intro w hw
+    rw [hansw] at hw; cases hw
   · rw [hlast]; rfl
   · intro v lb rb hacc; cases hacc
   · intro p hp
-    obtain ⟨h1, h2⟩ := hmarks p hp
-    exact MarkOK.fresh h1 h2
+    exact MarkOK.fresh (hmarks p hp)
 
 /-- induction over the schedule of an exchange in which no nomination with value 0 is issued -/
 theorem sched_runs {K : Ev → Bool} {R : Hist → Sys → Prop} {D : Hist → Sys → Dgram → Prop} (ok : SchedOK K R D)
@@ -178,7 +168,7 @@ theorem qinv_runs {nat : List (Nat × Nat)} {h : Hist} {s : Sys} (q : QInv nat h
 
 /-- the link invariant holds when the session is established -/
 theorem established_linv {s1 : Sys} (ht : TInv s1) (he : Established s1) : LInv {} s1 := by
-  obtain ⟨_, _, _, hpend, _, _⟩ := he
+  obtain ⟨_, _, hpend, _, _, _⟩ := he
   refine ⟨ht, ?_, ?_⟩
   · intro d _ pd hpd v hv
     rw [hpend pd hpd] at hv; cases hv
@@ -216,11 +206,12 @@ def IsMax (log : List Nomination) (x : Nomination) : Prop :=
 instance (log : List Nomination) (x : Nomination) : Decidable (IsMax log x) := by unfold IsMax; infer_instance
 
 /-- **The exchange has quiesced**: (1) no STUN message carrying a nomination value is in flight; (2) the controlling
-agent A has no nomination transaction outstanding; (3) the controlled agent B has no deferred nomination waiting for
-the validation of its pair. -/
+agent A has no valued nomination transaction outstanding; (3) the highest value the controlled agent B has accepted
+is not still waiting, as a deferred nomination, for the validation of its pair.  (Ordinary nominations and deferred
+nominations with smaller values may still be around: they no longer move a selection.) -/
 def Quiesced (s : Sys) : Prop :=
   (∀ d ∈ s.inflight, valFree d = true) ∧ (∀ pd ∈ s.a.pending, pd.nom = none) ∧
-  (∀ p ∈ s.b.checklist, p.nomOnSuccess = true → p.state = .succeeded)
+  (∀ p ∈ s.b.checklist, p.deferredNom.isSome = true → p.deferredNom ≠ s.b.lastNomination)
 
 instance (s : Sys) : Decidable (Quiesced s) := by unfold Quiesced; infer_instance
 
@@ -279,22 +270,30 @@ theorem controlled_selects_max_accepted (v : Nat)
       simp only [Prod.mk.injEq, beq_eq_false_iff_ne, ne_eq] at hnk
       exact ⟨p, hp, by rw [hpid]; exact haddr, hnk.2.1, hnk.2.2, hnk.1⟩
 
-/-- A's selected pair is the pair of the nomination whose success response A processed last -/
-theorem controlling_selects_last_answered (x : Nomination)
-    (hx : (hist (Sys.runs s0 pre) ex).answered = some x) :
-    x ∈ (hist (Sys.runs s0 pre) ex).issued ∧
-    selAddrs (Sys.runs (Sys.runs s0 pre) ex).a = some (x.2.1, x.2.2) :=
-  (exchange_qinv hf pre ex he hex hz).ansA x hx
+/-- once A has processed the success response to a nomination, its selected pair is the pair of the answered
+nomination with the greatest value — later responses to nominations with smaller values do not move it -/
+theorem controlling_selects_max_answered (x : Nomination) (hx : x ∈ (hist (Sys.runs s0 pre) ex).answered) :
+    ∃ y ∈ (hist (Sys.runs s0 pre) ex).answered, y ∈ (hist (Sys.runs s0 pre) ex).issued ∧
+      (∀ z ∈ (hist (Sys.runs s0 pre) ex).answered, z.1 ≤ y.1) ∧
+      selAddrs (Sys.runs (Sys.runs s0 pre) ex).a = some (y.2.1, y.2.2) := by
+  have q := exchange_qinv hf pre ex he hex hz
+  obtain ⟨_, w, hw, _⟩ := q.ansA x hx
+  obtain ⟨y, hy, hyw, hys⟩ := q.selA w hw
+  refine ⟨y, hy, (q.ansA y hy).1, fun z hz' => ?_, hys⟩
+  obtain ⟨_, w', hw', hle⟩ := q.ansA z hz'
+  rw [hw] at hw'
+  cases hw'
+  omega
 
-/-- B has handed the nomination whose response A processed last to its selector: B's highest accepted value is at
+/-- B has handed every nomination whose response A has processed to its selector: B's highest accepted value is at
 least its value -/
-theorem answered_le_accepted (x : Nomination) (hx : (hist (Sys.runs s0 pre) ex).answered = some x) :
+theorem answered_le_accepted (x : Nomination) (hx : x ∈ (hist (Sys.runs s0 pre) ex).answered) :
     ∃ last, (Sys.runs (Sys.runs s0 pre) ex).b.lastNomination = some last ∧ x.1 ≤ last :=
   (exchange_ql hf pre ex he hex hz).2.ansB x hx
 
 /-- … so when that nomination carries the highest value issued, B has accepted exactly that value -/
 theorem accepted_max_of_answered (x : Nomination) (hmax : IsMax (hist (Sys.runs s0 pre) ex).issued x)
-    (hA : (hist (Sys.runs s0 pre) ex).answered = some x) :
+    (hA : x ∈ (hist (Sys.runs s0 pre) ex).answered) :
     (Sys.runs (Sys.runs s0 pre) ex).b.lastNomination = some x.1 := by
   obtain ⟨last, hl, hle⟩ := answered_le_accepted hf pre ex he hex hz x hA
   obtain ⟨la, ra, hmem⟩ := accepted_le_issued hf pre ex he hex hz last hl
@@ -302,30 +301,27 @@ theorem accepted_max_of_answered (x : Nomination) (hmax : IsMax (hist (Sys.runs 
   have : last = x.1 := by simp only at this; omega
   rw [hl, this]
 
-/-- **Quiescent agreement (partial).** -/
+/-- **Quiescent agreement.** -/
 theorem quiescent_agreement (x : Nomination) (hq : Quiesced (Sys.runs (Sys.runs s0 pre) ex))
     (hmax : IsMax (hist (Sys.runs s0 pre) ex).issued x)
-    (hA : (hist (Sys.runs s0 pre) ex).answered = some x)
-    (hB : (Sys.runs (Sys.runs s0 pre) ex).b.lastNomination = some x.1) :
+    (hA : x ∈ (hist (Sys.runs s0 pre) ex).answered) :
     selAddrs (Sys.runs (Sys.runs s0 pre) ex).a = some (x.2.1, x.2.2) ∧
     selAddrs (Sys.runs (Sys.runs s0 pre) ex).b = some (mirror s0.nat x.2.1 x.2.2) := by
-  refine ⟨(controlling_selects_last_answered hf pre ex he hex hz x hA).2, ?_⟩
-  obtain ⟨la, ra, hmem, _, hsel⟩ := controlled_selects_max_accepted hf pre ex he hex hz x.1 hB
-  have hxe : (x.1, la, ra) = x := (hmax.2 _ hmem).2 rfl
-  have hla : la = x.2.1 := by rw [← hxe]
-  have hra : ra = x.2.2 := by rw [← hxe]
-  subst hla hra
-  rcases hsel with h | ⟨p, hp, _, hn, _, hs⟩
-  · exact h
-  · exact absurd (hq.2.2 p hp hn) hs
-
-/-- … with `hB` derived from `hA` -/
-theorem quiescent_agreement' (x : Nomination) (hq : Quiesced (Sys.runs (Sys.runs s0 pre) ex))
-    (hmax : IsMax (hist (Sys.runs s0 pre) ex).issued x)
-    (hA : (hist (Sys.runs s0 pre) ex).answered = some x) :
-    selAddrs (Sys.runs (Sys.runs s0 pre) ex).a = some (x.2.1, x.2.2) ∧
-    selAddrs (Sys.runs (Sys.runs s0 pre) ex).b = some (mirror s0.nat x.2.1 x.2.2) :=
-  quiescent_agreement hf pre ex he hex hz x hq hmax hA (accepted_max_of_answered hf pre ex he hex hz x hmax hA)
+  have hB := accepted_max_of_answered hf pre ex he hex hz x hmax hA
+  refine ⟨?_, ?_⟩
+  · obtain ⟨y, hy, hyi, hymax, hys⟩ := controlling_selects_max_answered hf pre ex he hex hz x hA
+    have h1 := hymax x hA
+    have h2 := hmax.2 y hyi
+    have hyx : y = x := h2.2 (by omega)
+    rw [← hyx]; exact hys
+  · obtain ⟨la, ra, hmem, _, hsel⟩ := controlled_selects_max_accepted hf pre ex he hex hz x.1 hB
+    have hxe : (x.1, la, ra) = x := (hmax.2 _ hmem).2 rfl
+    have hla : la = x.2.1 := by rw [← hxe]
+    have hra : ra = x.2.2 := by rw [← hxe]
+    subst hla hra
+    rcases hsel with h | ⟨p, hp, _, _, hd, _⟩
+    · exact h
+    · exact absurd (hd.trans hB.symm) (hq.2.2 p hp (by rw [hd]; rfl))
 
 end
 
